@@ -28,6 +28,9 @@ pub fn env_of(b: &mut Built) -> Env {
     let libl: Vec<_> = maps.iter().filter(|l| l.name.as_ref().map(|n| n.windows(6).any(|w| w == b"libfix")).unwrap_or(false)).collect();
     let lib = if libl.is_empty() { None } else { Some((libl[0].start, libl.last().unwrap().end)) };
     let a = b.p.auxv();
+    // the auxv command ran code on the main thread: wait until it is parked again (and make the
+    // last thing it did the same `ping` that every later quiesce() ends with)
+    b.p.quiesce();
     Env { main_stack, text, lib, auxv: (a.1, a.0, a.2, a.3) } // (phnum, phdr, gate, entry)
 }
 
